@@ -150,8 +150,27 @@ func (vm *VM) getInfo(fn *ssa.Function) *fnInfo {
 			}
 		}
 	}
-	if fn.Pkg != nil && strings.HasPrefix(fn.Pkg.Pkg.Path(), "reservoir") {
+	pkgOf := func(f *ssa.Function) *ssa.Package {
+		for f != nil {
+			if f.Pkg != nil {
+				return f.Pkg
+			}
+			if o := f.Origin(); o != nil && o != f {
+				f = o
+				continue
+			}
+			f = f.Parent()
+		}
+		return nil
+	}
+	if pk := pkgOf(fn); pk != nil && strings.HasPrefix(pk.Pkg.Path(), "reservoir") {
 		pos := fn.Pos()
+		for p := fn; p != nil && !pos.IsValid(); p = p.Parent() {
+			pos = p.Pos()
+			if o := p.Origin(); o != nil && !pos.IsValid() {
+				pos = o.Pos()
+			}
+		}
 		if fn.Parent() != nil {
 			pos = fn.Parent().Pos()
 		}
